@@ -258,6 +258,10 @@ def long_definition_cases(draw, tier):
     Lg, sh = draw(gen.long_dim(cap=257 if tier == "quick" else 620)), draw(st.integers(1, 3))
     if draw(st.integers(0, 3)) == 0:
         Lg, sh = draw(st.sampled_from([33, 65])), draw(st.sampled_from([33, 40]))
+    elif draw(st.integers(0, 3)) == 0:
+        # entry counts that are exact multiples of the usual chunk sizes (256 .. 4096 quaternions = 1024 .. 16384 reals):
+        # a chunked accumulation has an EMPTY remainder there
+        Lg, sh = draw(st.sampled_from([(256, 1), (256, 2), (512, 1), (128, 4), (64, 8), (256, 4), (1024, 1), (32, 16), (64, 32), (64, 64)]))
     m, n = (Lg, sh) if draw(st.booleans()) else (sh, Lg)
     A, pat = draw(gen.long_qarray(m, n))
     e = draw(st.sampled_from([0, 0, -30, 30]))
